@@ -1,5 +1,5 @@
 CONSTANTS D = 4  NStates = {1, 2, 3}  Shapes = {1, 3, 4}  Salts = {0, 1, 2}  Stages = {0}  WinSets = {1, 3}
-  MaxLabels = 2  LabelIdx = {1, 5, 7}  CondIdx = {9, 10, 11, 12, 13, 14, 15, 16, 17}
+  MaxUttStates = 10  MaxLabels = 2  LabelIdx = {1, 5, 7}  CondIdx = {9, 10, 11, 12, 13, 14, 15, 16, 17}
 SPECIFICATION Spec
 INVARIANTS Emit EmitVoice
 CHECK_DEADLOCK FALSE
